@@ -60,6 +60,7 @@ XerVariants(n, v) ==
        IN {VarPlan("BXER", Ser(toks, "lf"), "lf"), VarPlan("BXER", Ser(toks, "crlf-tab"), "crlf-tab"),
            VarPlan("BXER", Ser(toks, "comment"), "comment"), VarPlan("CXER", Ser(toks, "canon"), "canon"),
            VarPlan("BXER", Ser(Collapse(toks), "lf"), "empty-elements")}
+          \cup (IF NeedsRef(toks) THEN {VarPlan("BXER", Ser(toks, "numeric"), "numeric-refs")} ELSE {})
           \cup (IF HasTopDefault(Env, TRef(n))
                 THEN {VarPlan("BXER", Ser(XerTokens(Env, n, NoDefaults(Env, TRef(n)), WithDefaults(Env, TRef(n), v)), "lf"), "defaults-present")}
                 ELSE {})
